@@ -109,6 +109,37 @@ func eval(c Case) (problems []string, got, want []string, key string) {
 		e.Apply(to)
 		want = append(want, e.Expect...)
 	}
+	if c.Kind == "detached" {
+		// two tables that are attached to no schema (built by a program), one column apart.
+		mk := func(extra bool) *schema.Table {
+			t := schema.NewTable("t").AddColumns(&schema.Column{Name: "id", Type: &schema.ColumnType{Type: d.Int()}})
+			if extra {
+				t.AddColumns(&schema.Column{Name: "z", Type: &schema.ColumnType{Type: d.Int(), Null: true}})
+			}
+			return t
+		}
+		want = []string{"AddColumn(z)"}
+		if c.Permute == 1 {
+			want = nil
+		}
+		func() {
+			defer func() {
+				if p := recover(); p != nil {
+					problems = append(problems, fmt.Sprintf("TableDiff of two tables without a schema panics: %v", p))
+				}
+			}()
+			cs, err := d.Diff.TableDiff(mk(false), mk(c.Permute != 1), schema.DiffNormalized())
+			if err != nil {
+				problems = append(problems, "TableDiff of two tables without a schema: "+err.Error())
+				return
+			}
+			got = dfu.Flatten(cs)
+			if !reflect.DeepEqual(got, want) && !(len(got) == 0 && len(want) == 0) {
+				problems = append(problems, fmt.Sprintf("tables without a schema: got %v, want %v", got, want))
+			}
+		}()
+		return
+	}
 	if c.Kind == "realm" {
 		// a second schema with one table appears / disappears.
 		extra := schema.New("s2")
@@ -186,6 +217,7 @@ func cases(tier string) []Case {
 			cs = append(cs, Case{d.Name, "identity", nil, p})
 		}
 		cs = append(cs, Case{d.Name, "realm", nil, 0}, Case{d.Name, "realm", nil, 1})
+		cs = append(cs, Case{d.Name, "detached", nil, 0}, Case{d.Name, "detached", nil, 1})
 		es := dfu.Edits(d)
 		for _, e := range es {
 			for p := -1; p <= 3; p++ {
@@ -224,7 +256,7 @@ func cases(tier string) []Case {
 }
 
 func Run(r *report.Run) {
-	r.Rule = "per dialect (MySQL, PostgreSQL, SQLite differs, DiffNormalized mode - the CLI's): base schema built twice by plain constructors; every elementary edit of the catalogue alone (x 5 listing orders: none, desired side reversed/rotated, current side reversed/rotated - tables, indexes, index parts, foreign keys, attributes), every compatible pair (thorough: also permuted, and every compatible triple), documented equivalences (expect no change), identity (same object, rebuilt copy, permuted copy), schema add/drop at realm level; the flattened change tree of SchemaDiff must equal the multiset of expected descriptors (path, change type, kind bits), RealmDiff and TableDiff must agree with it and a repeated diff of the same inputs must give the same result; non-trivial = case with >=1 edit; distinct = (dialect, edits, order)"
+	r.Rule = "per dialect (MySQL, PostgreSQL, SQLite differs, DiffNormalized mode - the CLI's): base schema built twice by plain constructors; every elementary edit of the catalogue alone (x 5 listing orders: none, desired side reversed/rotated, current side reversed/rotated - tables, indexes, index parts, foreign keys, attributes), every compatible pair (thorough: also permuted, and every compatible triple), documented equivalences (expect no change), identity (same object, rebuilt copy, permuted copy), schema add/drop at realm level, TableDiff of two tables attached to no schema; the flattened change tree of SchemaDiff must equal the multiset of expected descriptors (path, change type, kind bits), RealmDiff and TableDiff must agree with it and a repeated diff of the same inputs must give the same result; non-trivial = case with >=1 edit; distinct = (dialect, edits, order)"
 	r.Assumptions = []string{
 		"expected descriptors are written from the definition of each edit; catalogue edits use unambiguous values, documented spelling equivalences (RESTRICT/NO ACTION/omitted, BTREE default, affinity classes, wrapped check expressions, identity defaults) form a separate stratum expecting no change",
 		"connection-less DefaultDiffs (MySQL pinned at 8.0.31 by the driver): edits needing a server lookup are given both charset and collation",
